@@ -7,7 +7,7 @@ with re-segmentation (`Spec.Editor.applyC`). -/
 namespace VaxisModel.Lemmas.EditorCl
 open VaxisModel.Model.TextFieldCl
 open VaxisModel.Model.TextField (KeyEv)
-open VaxisModel.Spec.Editor (Ed Op Callback resegment applyC callbacksC runC Segmentation apply)
+open VaxisModel.Spec.Editor (Ed Op Callback resegment applyC callbacksC runC Segmentation apply wordLeftPos)
 open VaxisModel.Lemmas.Editor (insertLoop_eq delRightLoop_eq delLeftLoop_eq killLoop_eq)
 
 variable {A : Type} (cl : List A → List (List A))
@@ -396,5 +396,81 @@ theorem oneCluster_seg {A : Type} : Segmentation (oneCluster (A := A)) where
     cases x with
     | nil => simp [oneCluster]
     | cons a x => simp [oneCluster]
+
+/-! ### The editor of graphemes that never merge as an instance -/
+
+/-- every cluster is a single atom -/
+def AllSingle {A : Type} (t : List (List A)) : Prop := ∀ c ∈ t, c.length = 1
+
+theorem singletons_flatten_of_allSingle {A : Type} : ∀ (t : List (List A)), AllSingle t → singletons t.flatten = t := by
+  intro t
+  induction t with
+  | nil => intro _; rfl
+  | cons c t ih =>
+    intro h
+    have hc := h c (List.mem_cons_self ..)
+    have ht : AllSingle t := fun x hx => h x (List.mem_cons_of_mem _ hx)
+    match c, hc with
+    | [a], _ =>
+      simp only [List.flatten_cons, List.singleton_append, singletons, List.map_cons] at ih ⊢
+      rw [ih ht]
+
+theorem allSingle_take {A : Type} (t : List (List A)) (k : Nat) (h : AllSingle t) : AllSingle (t.take k) :=
+  fun c hc => h c (List.mem_of_mem_take hc)
+theorem allSingle_drop {A : Type} (t : List (List A)) (k : Nat) (h : AllSingle t) : AllSingle (t.drop k) :=
+  fun c hc => h c (List.mem_of_mem_drop hc)
+theorem allSingle_append {A : Type} (t u : List (List A)) (h1 : AllSingle t) (h2 : AllSingle u) : AllSingle (t ++ u) := by
+  intro c hc
+  rcases List.mem_append.mp hc with h | h
+  · exact h1 c h
+  · exact h2 c h
+theorem allSingle_eraseIdx {A : Type} (t : List (List A)) (k : Nat) (h : AllSingle t) : AllSingle (t.eraseIdx k) :=
+  fun c hc => h c (List.mem_of_mem_eraseIdx hc)
+theorem allSingle_singletons {A : Type} (x : List A) : AllSingle (singletons x) := by
+  intro c hc
+  simp only [singletons, List.mem_map] at hc
+  obtain ⟨a, _, rfl⟩ := hc
+  rfl
+
+/-- With the segmentation that never merges, re-segmentation only clamps the cursor. -/
+theorem resegment_singletons {A : Type} (t : List (List A)) (k : Nat) (h : AllSingle t) :
+    resegment singletons ⟨t, k⟩ = ⟨t, min k t.length⟩ := by
+  unfold resegment
+  simp only [singletons_flatten_of_allSingle t h, singletons_flatten_of_allSingle _ (allSingle_take t k h), List.length_take]
+  congr 1
+  omega
+
+/-- The payload of an operation consists of single-atom graphemes. -/
+def OpSingle {A : Type} : Op (List A) → Prop
+  | .insert gs => AllSingle gs
+  | .setContent gs => AllSingle gs
+  | _ => True
+
+theorem apply_allSingle {A : Type} (isWord : List A → Bool) (s : Ed (List A)) (op : Op (List A))
+    (hs : AllSingle s.text) (hop : OpSingle op) : AllSingle (apply isWord s op).text := by
+  cases op with
+  | insert gs => exact allSingle_append _ _ (allSingle_append _ _ (allSingle_take _ _ hs) hop) (allSingle_drop _ _ hs)
+  | deleteLeft =>
+    simp only [apply]
+    split
+    · exact hs
+    · exact allSingle_eraseIdx _ _ hs
+  | deleteRight => exact allSingle_eraseIdx _ _ hs
+  | killToEnd => exact allSingle_take _ _ hs
+  | killToStart => exact allSingle_drop _ _ hs
+  | deleteWordLeft => exact allSingle_append _ _ (allSingle_take _ _ hs) (allSingle_drop _ _ hs)
+  | setContent gs => exact hop
+  | reset => intro c hc; cases hc
+  | submit => intro c hc; cases hc
+  | _ => exact hs
+
+/-- The editor over merging graphemes with the segmentation that never merges *is* the grapheme
+editor (up to clamping the cursor into the text, which the grapheme editor's cursor already is when
+it started within the text). -/
+theorem applyC_singletons {A : Type} (isWord : List A → Bool) (s : Ed (List A)) (op : Op (List A))
+    (hs : AllSingle s.text) (hop : OpSingle op) :
+    applyC singletons isWord s op =
+      ⟨(apply isWord s op).text, min (apply isWord s op).cursor (apply isWord s op).text.length⟩ :=
+  resegment_singletons _ _ (apply_allSingle isWord s op hs hop)
 
 end VaxisModel.Lemmas.EditorCl
